@@ -29,6 +29,10 @@ func NewVMLHeader() *VMLH {
 }
 
 func (h *VMLH) SetLength(length int) error {
+	if length < 0 {
+		return fmt.Errorf("length %d is negative", length)
+	}
+
 	if length > math.MaxUint16 {
 		return fmt.Errorf("length %d exceeds max length for 2 bytes header %d", length, math.MaxUint16)
 	}
